@@ -1,7 +1,7 @@
 """C08 - shared-memory store (see contracts/c08_shm.py for the proved obligations, checks/shm_bounded.py for the stand-in)."""
 from checks import common
 
-PROVED_TARGETS = ['cascade.shm.dataset:Manager.add', 'cascade.shm.dataset:Manager.purge', 'cascade.shm.dataset:Manager.page_out', 'cascade.shm.dataset:Manager.page_in', 'cascade.shm.dataset:Manager.page_out.<locals>.callback', 'cascade.shm.dataset:Manager.page_in.<locals>.callback', 'cascade.shm.dataset:Manager.get', 'cascade.shm.dataset:Manager.close_callback']
+PROVED_TARGETS = ['cascade.shm.dataset:Manager.__init__', 'cascade.shm.dataset:Manager.add', 'cascade.shm.dataset:Manager.purge', 'cascade.shm.dataset:Manager.page_out', 'cascade.shm.dataset:Manager.page_in', 'cascade.shm.dataset:Manager.page_out.<locals>.callback', 'cascade.shm.dataset:Manager.page_in.<locals>.callback', 'cascade.shm.dataset:Manager.get', 'cascade.shm.dataset:Manager.close_callback']
 
 
 def run(tier, seed):
